@@ -6,7 +6,7 @@ V = os.path.dirname(os.path.dirname(os.path.abspath(__file__)))
 def hook_commits():
     try:
         out = subprocess.run(["git", "-C", "/repo", "log", "--format=%H %s"], capture_output=True, text=True).stdout
-        return [l.split()[0] for l in out.splitlines() if "verif hooks" in l]
+        return [l.split()[0] for l in out.splitlines() if "verif hook" in l]
     except Exception:
         return []
 
